@@ -385,12 +385,18 @@ impl ASN1Type {
             ASN1Type::Choice(c) => c
                 .options
                 .iter_mut()
-                .any(|o| o.ty.link_components_of_notation_in(tlds, expanding)),
+                // every alternative is visited (`any` would stop at the first one that was linked)
+                .fold(false, |linked, o| {
+                    o.ty.link_components_of_notation_in(tlds, expanding) || linked
+                }),
             ASN1Type::Set(s) | ASN1Type::Sequence(s) => {
                 let mut member_linking = s
                     .members
                     .iter_mut()
-                    .any(|m| m.ty.link_components_of_notation_in(tlds, expanding));
+                    // every component is visited (`any` would stop at the first one that was linked)
+                    .fold(false, |linked, m| {
+                        m.ty.link_components_of_notation_in(tlds, expanding) || linked
+                    });
                 // TODO: properly link components of in extensions
                 // TODO: link components of Class field, such as COMPONENTS OF BILATERAL.&id
                 // the notations are consumed: a type without them has been expanded already
